@@ -213,6 +213,33 @@ pub fn run(text: &str, cases_path: &str, out: &mut impl Write) {
                     }
                 }
                 BackendTarget::Database(_, client) => {
+                    // removal: all the rows that are a folder's vault content (folder_secrets) or its log (folder_events)
+                    // deleted inside a transaction on the one connection the report also uses, then rolled back
+                    for s in &folders {
+                        let fid = *s.id();
+                        let ident = fid.to_string();
+                        let Ok(folder_row): Result<i64, _> = client
+                            .conn(move |conn| conn.query_row("SELECT folder_id FROM folders WHERE identifier=?1", [ident], |r| r.get(0)))
+                            .await else { continue };
+                        for (table, store) in [("folder_secrets", "vault"), ("folder_events", "log")] {
+                            let n: i64 = client
+                                .conn(move |conn| conn.query_row(&format!("SELECT COUNT(*) FROM {table} WHERE folder_id=?1"), [folder_row], |r| r.get(0)))
+                                .await
+                                .unwrap_or(0);
+                            if n == 0 {
+                                continue;
+                            }
+                            if client.conn(|conn| conn.execute_batch("BEGIN")).await.is_err() {
+                                continue;
+                            }
+                            let del = client.conn(move |conn| conn.execute(&format!("DELETE FROM {table} WHERE folder_id=?1"), [folder_row])).await;
+                            if del.is_ok() {
+                                let (_f, c, failed) = report(&target, &account_id, folders.clone()).await;
+                                writeln!(out, "{id} rm {store} {} rows={n} detected={} complete={}", fname(&fid), failed.contains(&fid) as u8, c as u8).unwrap();
+                            }
+                            let _ = client.conn(|conn| conn.execute_batch("ROLLBACK")).await;
+                        }
+                    }
                     // mutate one byte of a column of one row at a time
                     for (table, cols, store) in [("folder_secrets", vec!["commit_hash", "meta", "secret"], "vault"), ("folder_events", vec!["commit_hash", "event"], "log")] {
                         let key = if table == "folder_secrets" { "secret_id" } else { "event_id" };
